@@ -102,8 +102,8 @@ class KGFnWrapper:
         # Python lists become Klong lists: kg_asarray keeps ragged lists and lists mixing numbers
         # with strings as lists of their elements (np.asarray raised on the former and turned the
         # numbers of the latter into strings)
-        # None is Klong's :undefined (inside the interpreter a None argument marks an elided
-        # argument, so f(None) built a projection instead of calling f)
+        # None is Klong's :undefined: inside the interpreter a None argument marks an elided
+        # argument, so f(None) - e.g. a websocket message `null` - built a projection and never ran f
         backend = self.klong._backend
         return [KLONG_UNDEFINED if x is None else backend.kg_asarray(x) if isinstance(x, list) else x for x in args]
 
